@@ -213,6 +213,14 @@ def step (st : St) (line : String) : St × Option String :=
         (st, some ("schema ok " ++ maskedHex s m ++ " " ++
           String.join (rows.map fun r => toString r.depth ++ "," ++ toString r.off ++ "," ++ toString r.size ++ "," ++ toString r.align ++ ";")))
       | _, _ => (st, some "badval")
+  | ["xdeser", i, j, val] =>
+      match i.toNat?.bind (st.types[·]?), j.toNat?.bind (st.types[·]?), parseVal val with
+      | some t, some u, some v =>
+        if !t.wt v then (st, some "illtyped") else
+        let s := t.ser H (st.names.getD i.toNat! []) v
+        (st, some ("xdeser | F " ++ showRes (fun (x : Val × Nat) => showVal x.1 ++ " " ++ toString x.2) (u.deFull H s) ++
+                   " | E " ++ showRes (fun (x : EVal × Nat) => showEVal x.1 ++ " " ++ toString x.2) (u.deEps H 0 s)))
+      | _, _, _ => (st, some "badval")
   | ["fromhex", i, r, h] =>
       match i.toNat?.bind (st.types[·]?), r.toNat? with
       | some t, some r =>
